@@ -211,6 +211,23 @@ def fam_c17(tier, seed):
                     sc = scenario("C17-g%03d" % len(scs), "C17", [], apps, horizon_ms=6 * T + 20, single=False)
                     sc["tags"] = ["queue", "giveup-window", "parked:%d" % parked, "probe:%s" % probe]
                     scs.append(sc)
+    # unblock() calls issued before anybody receives, then receivers that do not wait first (try_recv, or a timed call
+    # that finds something queued): every token still releases exactly one call, none is swallowed with another
+    # token or with a request
+    def _late(a, ns):
+        return {"prog": [{"op": "sleep", "ns": ns}] + a["prog"]}
+    for nu in (1, 2, 3):
+        for combo in (("tryrecv",), ("tryrecv", "recv"), ("try", "recv"), ("timed1", "recv"), ("tryrecv", "tryrecv", "recv"), ("timedloop", "recv", "recv")):
+            for pts in ([], [0], [500_000]):
+                apps = []
+                for i, r in enumerate(combo):
+                    a = R_try_then_recv() if r == "tryrecv" else (R_try_loop(1) if r == "try" else recvs[r]())
+                    apps.append(_late(a, (1 + i) * MS))
+                apps.append(unblocker(0, nu))
+                cc = [simple_conn(c, 1, at_ns=t) for c, t in enumerate(pts)]
+                sc = scenario("C17-t%03d" % len(scs), "C17", cc, apps, horizon_ms=6 * T + 20, single=False)
+                sc["tags"] = ["queue", "tokens-before-receivers", "unblock:%d" % nu, "recv:" + "+".join(combo)]
+                scs.append(sc)
     for (combo, sp, pts) in spur:
         apps = [recvs[r]() for r in combo]
         prog = []
@@ -270,6 +287,22 @@ def fam_c08(tier, seed):
             sc["tags"] = ["pool", "n:%d" % n, var] + (["burst>4"] if n > 4 else [])
             scs.append(sc)
             k += 1
+    # connections that are over as far as the connection thread is concerned (last request handed out) but whose
+    # handler keeps the request -- with a streamed body the thread stays behind it -- while new connections arrive
+    for nheld, nnew in itertools.product([1, 2, 5], [1, 5]):
+        for tag, kw in (("cl5000", dict(framing="cl", body_len=5000)), ("ch2000", dict(framing="chunked", body_len=2000, chunks=[2000])),
+                        ("none", dict())):
+            for ver, cn in (("1.1", "close"), ("1.0", None)):
+                cc = []
+                for c in range(nheld):
+                    d, j, ln = conn([Msg(method="POST" if kw else "GET", version=ver, conn=cn, plan=keep(), **kw)], c)
+                    cc.append((d, j, ln))
+                for c in range(nheld, nheld + nnew):
+                    cc.append(simple_conn(c, 1, at_ns=2 * MS))
+                sc = scenario("C08-%04d" % k, "C08", cc, [R_recv(), R_recv()], horizon_ms=1000, single=False)
+                sc["tags"] = ["pool", "held-last-request", tag, "v%s/%s" % (ver, cn), "n:%d+%d" % (nheld, nnew)]
+                scs.append(sc)
+                k += 1
     # waves around the idle period: first wave ends, workers idle / retire, second wave arrives
     for n1, n2, t2 in itertools.product([5, 8], [1, 3, 6], [4_990, 5_000, 5_010, 5_012, 5_020]):
         cc = []
@@ -366,7 +399,7 @@ def fam_c20(tier, seed):
             cc.append(simple_conn(c, 1, plan=plan))
         sc = scenario("C20-%04d" % k, "C20", cc, [serve("recv", "spawn"), serve("recv", "spawn")], horizon_ms=200, single=False,
                       drop_server_early=True, connect_after_drop=2)
-        sc["tags"] = ["pool", "drop-while-held", "n:%d" % n]
+        sc["tags"] = ["pool", "drop-while-held", "demote", "n:%d" % n]
         scs.append(sc)
         k += 1
     # (b2) connections that outlive the drop by more than the idle period: their workers go idle
@@ -391,14 +424,14 @@ def fam_c20(tier, seed):
         cc = [conn(msgs, 0)] + [simple_conn(1 + i, 1, at_ns=2 * MS) for i in range(other)]
         apps = [{"prog": [{"op": "recv", "kind": "recv"}, {"op": "handle", "sel": "all", "mode": "spawn"}]}]
         sc = scenario("C20-%04d" % k, "C20", cc, apps, horizon_ms=200, single=False, drop_server_early=True, connect_after_drop=2)
-        sc["tags"] = ["pool", "drop-while-held", "queued-behind-held", "queued:%d" % nq]
+        sc["tags"] = ["pool", "drop-while-held", "queued-behind-held", "demote", "queued:%d" % nq]
         scs.append(sc)
         k += 1
     # (c) plain drop with idle / open connections
     for n in [0, 1, 4, 6]:
         cc = [simple_conn(c, 1) for c in range(n)]
         sc = scenario("C20-%04d" % k, "C20", cc, [R_recv()], horizon_ms=100, single=(n <= 1), connect_after_drop=3)
-        sc["tags"] = ["pool", "drop", "n:%d" % n]
+        sc["tags"] = ["pool", "drop", "demote", "n:%d" % n]
         scs.append(sc)
         k += 1
     return scs
@@ -452,8 +485,12 @@ def fam_c01(tier, seed, prop="C01"):
     # a response whose body reader fails part-way, at every position
     prods += [("rfe3",), ("rfp0",), ("rfe700", "r5"), ("rfp3", "r5"), ("r5", "rfe0", "r5"), ("r5", "rfp700", "w1f"), ("w2f", "rfe700", "drop"),
               ("r1025", "rfp3"), ("rfe0", "rfp0", "r5"), ("drop", "rfe3", "panic")]
+    # (mode "spawn0": every request on its own thread, all starting at the same instant -- the scheduler alone decides
+    #  how the parts of different responses interleave in time; in mode "spawn" the handlers start 1 ms apart)
     for combo in prods:
-        for mode in ("spawn", "inline"):
+        for mode in ("spawn", "inline", "spawn0"):
+            if mode == "spawn0" and not (len(combo) <= 3 and any(n_ in ("w2f", "w2n", "w3l", "rbig", "rundecl", "r1025", "wf1") for n_ in combo)):
+                continue
             delays = [0] * len(combo)
             if mode == "spawn":
                 # answer in a permuted order: delays are a permutation of 0, 1 ms, 2 ms
@@ -471,13 +508,13 @@ def fam_c01(tier, seed, prop="C01"):
             if late:
                 # the connection thread is still parsing the third request while earlier ones are answered
                 d["prog"] = [{"op": "send", "to": d["msgs"][1]["be"]}, {"op": "sleep", "ns": 500_000}, {"op": "send", "to": ln}]
-            if mode == "spawn":
+            if mode in ("spawn", "spawn0"):
                 apps = [serve("recv", "spawn")]
             else:
                 apps = [{"prog": [{"op": "collect", "k": len(combo), "kind": "recv"}, {"op": "handle", "sel": "all", "mode": "inline"},
                                   {"op": "serve", "kind": "recv", "mode": "inline", "max_empty": 1, "ms": 0}]}]
             sc = scenario("%s-%04d" % (prop, k), prop, [(d, j, ln)], apps, horizon_ms=100)
-            sc["tags"] = ["writer-chain", mode] + ["plan:" + "+".join(combo)]
+            sc["tags"] = ["writer-chain", mode] + ["plan:" + "+".join(combo)] + (["demote"] if mode == "spawn0" and len(combo) == 2 else [])
             if "w0" in combo:
                 sc["tags"].append("unused-writer-dropped")
             scs.append(sc)
@@ -486,6 +523,22 @@ def fam_c01(tier, seed, prop="C01"):
 
 def fam_c06(tier, seed):
     scs = fam_c01(tier, seed, prop="C06")
+    # the same finishes for the methods and request headers that change how a response is framed: a dropped HEAD
+    # request (with or without TE: chunked), HTTP/1.0, ... still gets exactly one well-delimited 500
+    k = 0
+    for fin in ("drop", "panic", "r5", "rundecl", "w1f"):
+        for meth, ver, te in (("HEAD", "1.1", None), ("HEAD", "1.1", "chunked"), ("GET", "1.1", "chunked"), ("HEAD", "1.0", None),
+                              ("GET", "1.0", "chunked"), ("POST", "1.1", "identity"), ("HEAD", "1.1", "identity;q=0.5, chunked")):
+            for pos in (0, 1):
+                plans = _answer_plans("C06")
+                hs = [("Host", "verif")] + ([("TE", te)] if te else []) + ([("Connection", "keep-alive")] if ver == "1.0" else [])
+                mid = Msg(method=meth, version=ver, headers=hs, plan=plans[fin]())
+                msgs = ([Msg()] if pos == 1 else []) + [mid, Msg(plan=respond(200, 7))]
+                d, j, ln = conn(msgs, 0)
+                sc = scenario("C06-h%03d" % k, "C06", [(d, j, ln)], [serve("recv", "spawn")], horizon_ms=100)
+                sc["tags"] = ["writer-chain", "framing-variants", fin, meth, "v" + ver, "te:%s" % te, "pos:%d" % pos]
+                scs.append(sc)
+                k += 1
     # a request whose streamed body the client has only partly sent is dropped / its handler panics / it is
     # answered without reading: the final response must not wait for the rest of the body
     k = 0
@@ -566,6 +619,7 @@ def fam_c09(tier, seed):
         cons = [("upto%d" % p, dict(upto=p, sizes=[512])) for p in prefixes if p > 0 or True]
         cons.append(("eof", dict(sizes=[300], to_eof=True)))
         cons.append(("zero", dict(sizes=[0])))          # a single zero-length read, then the request is finished
+        cons.append(("all-zero-more", dict(sizes=[max(n, 1), 0, 300, 300])))   # every byte, a zero-length read, then more reads
         for (ctag, ckw), fin, fol in itertools.product(cons, sorted(finishes), sorted(followers)):
             if tier == "quick" and rng.random() > 0.35:
                 continue
@@ -578,6 +632,8 @@ def fam_c09(tier, seed):
             sc["tags"] = ["boundary", tag, ctag, fin, "follower:" + fol, "v%s/%s" % (ver, cn)]
             if ctag == "zero":
                 sc["tags"].append("zero-length-read")
+            if ctag == "all-zero-more":
+                sc["tags"].append("zero-length-read-mid-body")
             if kw["framing"] == "chunked" and ctag != "eof":
                 sc["tags"].append("chunked-body-not-read-to-eof")
             scs.append(sc)
@@ -606,7 +662,10 @@ def fam_c03(tier, seed):
     rng = _rng("C03", seed)
     scs = []
     k = 0
-    programs = [("one", [1]), ("seven", [7]), ("kib", [1024]), ("huge", [200000]), ("mixed", [1, 1023, 2, 4096, 3])]
+    programs = [("one", [1]), ("seven", [7]), ("kib", [1024]), ("huge", [200000]), ("mixed", [1, 1023, 2, 4096, 3]),
+                # a read into an empty buffer (which by the contract of std::io::Read says nothing about the end of the
+                # stream) in the middle of the body
+                ("zero-mid", [7, 0, 4096])]
     for tag, kw in _body_variants("thorough"):
         for ptag, sizes in programs:
             # (a program of tiny reads over a body of tens of KiB is tens of thousands of events per
@@ -629,6 +688,8 @@ def fam_c03(tier, seed):
                 d, j, ln = conn(msgs, 0, trailing=trailing, trailing_cls=("r400" if trailing else None))
                 sc = scenario("C03-%04d" % k, "C03", [(d, j, ln)], _single_app(), horizon_ms=100)
                 sc["tags"] = ["framing", tag, "reads:" + ptag, "follow:" + follow, "names:" + case] + (["cl+te"] if both else []) + (["te-first"] if both == "te-first" else [])
+                if ptag == "zero-mid":
+                    sc["tags"].append("zero-length-read-mid-body")
                 scs.append(sc)
                 k += 1
     # no body at all, and an upgrade request (body = rest of the connection)
@@ -1101,6 +1162,24 @@ def fam_c15(tier, seed):
                 sc["tags"] = ["vanish", "conv:" + name, "cut:%d" % off, fault]
                 scs.append(sc)
                 k += 1
+    # the application reads the body the usual way (read_to_end / io::copy, which retry on Interrupted) and the client
+    # goes away in the middle of it: the read ends (short or with an error), the request can be answered, others are served
+    for tag, kw in (("cl5000", dict(framing="cl", body_len=5000)), ("cl1025", dict(framing="cl", body_len=1025)),
+                    ("ch2000", dict(framing="chunked", body_len=2000, chunks=[700, 1300])), ("cl5", dict(framing="cl", body_len=5)),
+                    ("cl5-expect", dict(framing="cl", body_len=5, expect="100-continue"))):
+        for helper in ("read_to_end", "copy"):
+            for frac in (0.0, 0.5, 0.98):
+                for fault in ("half", "close"):
+                    p = dict(respond(200, 4), read_std=helper)
+                    d, j, ln = conn([Msg(method="POST", plan=p, **kw)], 0)
+                    me = d["msgs"][0]
+                    cut = me["he"] + int((me["be"] - me["he"]) * frac)
+                    d["prog"] = [{"op": "send", "to": cut}, {"op": fault}]
+                    d2, j2, l2 = simple_conn(1, 1, at_ns=2 * MS)
+                    sc = scenario("C15-%04d" % k, "C15", [(d, j, ln), (d2, j2, l2)], _single_app(), horizon_ms=100, single=True)
+                    sc["tags"] = ["vanish", "std-read-helper", helper, tag, "cut:%d" % cut, fault]
+                    scs.append(sc)
+                    k += 1
     # the client goes away while responses are being written / never reads
     for size, declared in ((10, True), (3000, True), (70000, True), (5000, False)):
         for when in ("before", "during", "noread"):
